@@ -26,7 +26,7 @@ CFG = {
                   "per-element atomic steps (and of Fetch/Acc steps for the canvas); real goroutine schedules, the Go "
                   "memory model and the race detector's happens-before are runtime facts that are SAMPLED, not proved: "
                   "quick runs every mesh case once under the default scheduler and once under the -race binary "
-                  "(7.4k cases) plus 3 marching cases under -race; thorough repeats every exhaustive case 12x for each "
+                  "(7.4k cases) plus 2 marched canvases (2 blocks x 2 attributes, two overlapping fields) and 3 repeated accumulation-only canvases (2, 8, 12 blocks) under -race; thorough repeats every exhaustive case 12x for each "
                   "GOMAXPROCS in {1,2,16} with and without runtime.Gosched injected in the callback, under both binaries. "
                   "Race reports depend on the schedule (the getSection race below is reported in ~2 of 3 runs). "
                   "Trusted: Coq kernel + vm_compute; hand-written model tied by differential correspondence; "
